@@ -11,7 +11,7 @@ EXPLANATION = (
     "assigns every member. (F4) each wrapper calls exactly its C function on the owned handle with its parameters in order and "
     "returns that result with error_code_from(result); error_code_from maps >=0 to success, <0 to {-r, system}, special cases to "
     "the std::errc of the same number. (F5) poll copies sources in/out per index. (F6) container conversions allocate at least "
-    "what they write (linear forms) and terminate the array.")
+    "what they write (linear forms) and terminate the array. Scalar conversion helpers (*_from) must hand their parameter on unchanged - no branch, no arithmetic (F1c).")
 ASSUMPTIONS = [
     "clang 14 parser / semantic analysis and the fact extractor are correct",
     "the witness TU instantiates arguments/env conversion for std::vector<std::string>, std::map and vector<pair>, drain and run with the stock sinks",
